@@ -15,6 +15,7 @@
     own index path (FeedReplay.v). *)
 From Gnmi Require Import Base.Prelude CTree.CTreeModel CTree.CTreeProofs Path.PathModel
   Cache.CacheModel Cache.CacheProofs Cache.C02Check Cache.C03Check Cache.FeedReplay.
+From Gnmi Require Cache.SliceHeap Cache.SliceHeapProofs.
 Local Open Scope Z_scope.
 
 (** the whole cache: every history of GnmiUpdate / Reset / Remove / Add (of an
@@ -225,3 +226,62 @@ Theorem C03_feed_replays_refuted_handle :
     rfind (replay (cfeed_hist (new_cache wit_cfg ["t"]) wit_handle_ops)) "" ["b"] <> None.
 Proof. exact feed_replays_refuted_handle. Qed.
 Print Assumptions C03_feed_replays_refuted_handle.
+
+(** * input_unmodified over the slice-heap model (Cache/SliceHeap.v)
+
+    [heap] = backing arrays, a slice = (array id, offset, len, cap), [append]
+    writes in place when len < cap.  [dsrc_ok h d]: the two slices of a stored
+    notification name arrays of [h] -- nothing else is assumed: any number of
+    notifications may share one prefix slice, with ARBITRARY spare capacity,
+    any offsets, any growth policy [extra] of the runtime. *)
+
+(** (a) frame: after gnmiRemove has built its delete notifications (HEAD), every
+    array that existed before -- every cell a caller can reach through any
+    slice [s], spare capacity included -- is unchanged *)
+Theorem C03_input_unmodified_frame :
+  forall (A : Type) (extra : nat -> nat -> nat) (ds : list (SliceHeap.dsrc A)) h h' os,
+    Forall (SliceHeapProofs.dsrc_ok h) ds ->
+    SliceHeap.build_deletes (SliceHeap.to_delete_fixed extra) h ds = (h', os) ->
+    (forall id, (id < List.length h)%nat -> SliceHeap.get_arr h' id = SliceHeap.get_arr h id) /\
+    (forall s, (SliceHeap.s_id s < List.length h)%nat ->
+               SliceHeap.sreach h' s = SliceHeap.sreach h s /\ SliceHeap.sread h' s = SliceHeap.sread h s).
+Proof. exact (@SliceHeapProofs.deletes_frame). Qed.
+Print Assumptions C03_input_unmodified_frame.
+
+(** (b) the k delete notifications, read after ALL were built, carry the k paths
+    (prefix elements ++ path elements) of the k removed leaves, in order: no
+    later append overwrites an earlier result *)
+Theorem C03_input_unmodified_paths :
+  forall (A : Type) (extra : nat -> nat -> nat) (ds : list (SliceHeap.dsrc A)) h h' os,
+    Forall (SliceHeapProofs.dsrc_ok h) ds ->
+    SliceHeap.build_deletes (SliceHeap.to_delete_fixed extra) h ds = (h', os) ->
+    SliceHeap.read_all h' os = map (SliceHeap.want h) ds.
+Proof. exact (@SliceHeapProofs.deletes_paths). Qed.
+Print Assumptions C03_input_unmodified_paths.
+
+(** the multi-notification branch of Target.GnmiUpdate (strip n.Update/n.Delete,
+    clone per unit, deferred restore): whatever the unit handler does, as long
+    as it only adds arrays (which (a) shows of gnmiRemove), the caller's object
+    is as before and the old heap is a prefix of the new one *)
+Theorem C03_input_unmodified_multi_restores :
+  forall (A U D : Type) (handle : @SliceHeap.heap A -> @SliceHeap.nobj U D -> @SliceHeap.heap A),
+    (forall h c, SliceHeapProofs.extends h (handle h c)) ->
+    forall h n, let '(h', n') := SliceHeap.dispatch handle h n in
+                n' = n /\ SliceHeapProofs.extends h h'.
+Proof. exact (@SliceHeapProofs.dispatch_restores). Qed.
+Print Assumptions C03_input_unmodified_multi_restores.
+
+(** the code before 20c4a71 ([append(prefix.GetElem(), path.GetElem()...)] in the
+    loop) on the witness of corpus/C03/fixed_delete_alias.json: three leaves
+    through one prefix [a, b] with two spare slots -- all three delete
+    notifications carry a/b/z and the caller's array has been written *)
+Theorem C03_input_unmodified_prefix_alias_refuted :
+  exists (h : @SliceHeap.heap String.string) ds,
+    Forall (SliceHeapProofs.dsrc_ok h) ds /\
+    let '(h', os) := SliceHeap.build_deletes (SliceHeap.to_delete_old SliceHeapProofs.w_extra) h ds in
+    SliceHeap.read_all h' os <> map (SliceHeap.want h) ds /\
+    SliceHeap.read_all h' os =
+      [[Some "a"; Some "b"; Some "z"]; [Some "a"; Some "b"; Some "z"]; [Some "a"; Some "b"; Some "z"]]%string /\
+    SliceHeap.sreach h' SliceHeapProofs.w_pfx <> SliceHeap.sreach h SliceHeapProofs.w_pfx.
+Proof. exact SliceHeapProofs.old_code_aliases. Qed.
+Print Assumptions C03_input_unmodified_prefix_alias_refuted.
